@@ -1,5 +1,6 @@
 """C19 - the database layer builds correct, isolated datasets from its source."""
 import copy
+import common
 import gc
 import json
 import os
@@ -51,6 +52,7 @@ def answer(db, req):
 
 
 def one_case(rng, tmp):
+    common.gc_point()
     from lazy_dataset.database import DictDatabase, JsonDatabase
     pool = ['train', 'dev', 'test', 'extra', 'eval', 'A']
     nd = rng.choice([1, 2, 2, 3, 3])
